@@ -121,6 +121,8 @@ def ev(e, env, ctx, group=None):
       if not V.isc(x) and not V.isc(y):
         raise Unsupported('non-linear multiplication')
       v = x * y
+    elif op == '%' and V.isc(y) and int(y) != 0:
+      v = V.trunc_rem(x, y)
     else:
       raise Unsupported('operator ' + op)
     return S(v, 'int', OR(a.null, b.null))
